@@ -1,8 +1,7 @@
 (* C13 — Consumption starts at the committed offset, else per auto_offset_reset.
    Public statements only.  Model: model/C13_StartPos.v — per partition: position, pending reset
    strategy, committed-lookup waiters, OffsetFetch / ListOffsets requests in flight, the buffered
-   error; events Assigned, CommittedReq, LookupSent / LookupErr / LookupOk / LookupSwallowed,
-   CommittedResp, ListOffsetsSent / ListOffsetsResp / ListOffsetsIgnored / ListOffsetsErr,
+   error; events Assigned, CommittedReq, LookupSent / LookupErr / LookupOk, CommittedResp, ListOffsetsSent / ListOffsetsResp / ListOffsetsIgnored / ListOffsetsErr,
    OutOfRange, Consumed, Seek, SeekTo, ErrRaised, Position; environment: the group's offset
    store ([c_committed]) and the leader's answer to ListOffsets ([answer]: log start for
    earliest, last stable offset / high watermark by isolation level for latest).
@@ -13,8 +12,7 @@ From Verif Require Import C13_StartPos C13_proof.
 Import ListNotations.
 Open Scope Z_scope.
 
-(* c13_start (_partial: for traces without the step LookupSwallowed, see c13_start_refuted).
-   In every accepted trace in which the application does not reposition:
+(* c13_start.  In every accepted trace in which the application does not reposition:
    - the FIRST valid position after assignment is the committed offset if the consumer can see
      one; otherwise it is the leader's answer for the policy's strategy — log start (earliest),
      last stable offset (latest, read_committed) or high watermark (latest, read_uncommitted);
@@ -24,8 +22,8 @@ Open Scope Z_scope.
    - the only errors raised are NoOffsetForPartition (policy none, no committed offset) and
      OffsetOutOfRange (policy none);
    - with policy none no reset is ever started. *)
-Theorem c13_start_partial : forall c tr s,
-  run c fresh tr = Some s -> forallb clean_ev tr = true ->
+Theorem c13_start : forall c tr s,
+  run c fresh tr = Some s -> forallb (fun e => negb (user_move e)) tr = true ->
   (forall f, first s = Some f ->
      match snd f with
      | OCommitted cc => eff_committed c = Some cc /\ fst f = cc
@@ -47,7 +45,7 @@ Theorem c13_start_partial : forall c tr s,
   (c_policy c = PNone -> rst s = None /\ lo s = []) /\
   (forall x, rst s = Some x -> policy_strat (c_policy c) = Some x /\ (eff_committed c = None \/ oor s = true)).
 Proof. exact start_rule. Qed.
-Print Assumptions c13_start_partial.
+Print Assumptions c13_start.
 
 (* the answer used by a reset: what the isolation level selects *)
 Theorem c13_answer_by_isolation : forall l h ls,
@@ -55,29 +53,6 @@ Theorem c13_answer_by_isolation : forall l h ls,
   answer RU Latest l h ls = h /\ answer RC Latest l h ls = ls.
 Proof. intros. repeat split. Qed.
 Print Assumptions c13_answer_by_isolation.
-
-(* The full statement — the same without excluding LookupSwallowed — is FALSE for the code as it
-   is: a coordinator that answers OffsetFetch (v2+) with a group-level error only in the
-   top-level error_code makes the client conclude "no committed offset" and reset by policy
-   although the group has one (known finding, replayed on the real code by harness/c13.py). *)
-Definition C13_start_full : Prop :=
-  forall c tr s, run c fresh tr = Some s -> forallb (fun e => negb (user_move e)) tr = true ->
-  forall f, first s = Some f ->
-    match snd f with
-    | OCommitted cc => eff_committed c = Some cc /\ fst f = cc
-    | OReset x l h ls => eff_committed c = None /\ policy_strat (c_policy c) = Some x
-    | OSeek _ => False
-    end.
-
-Theorem c13_start_refuted : ~ C13_start_full.
-Proof.
-  intros H.
-  specialize (H (mkCfg PLatest RU true (Some 4))
-                [Assigned; CommittedReq; LookupSent; LookupSwallowed; CommittedResp None;
-                 ListOffsetsSent Latest; ListOffsetsResp Latest 2 12 12]).
-  simpl in H. specialize (H _ eq_refl eq_refl _ eq_refl). simpl in H. destruct H as (H & _). discriminate.
-Qed.
-Print Assumptions c13_start_refuted.
 
 (* c13_out_of_range.  A fetch reply reporting the current position out of range: with a reset
    policy the position is invalidated and a reset for the policy's strategy is pending (which
@@ -95,7 +70,7 @@ Print Assumptions c13_out_of_range.
 Theorem c13_reset_applies_answer : forall c s x l h ls s',
   step c s (ListOffsetsResp x l h ls) = Some s' ->
   pos s' = Some (answer (c_iso c) x l h ls) /\ rst s' = None /\
-  origin_ s' = Some (OReset x l h ls) /\ In x (lo s).
+  origin_ s' = Some (OReset x l h ls) /\ rst s = Some x /\ In x (lo s).
 Proof. exact reset_applies_answer. Qed.
 Print Assumptions c13_reset_applies_answer.
 
@@ -110,35 +85,15 @@ Theorem c13_seek_precedence : forall c tr1 o tr2 s,
 Proof. exact seek_precedence. Qed.
 Print Assumptions c13_seek_precedence.
 
-(* seek_to_beginning / seek_to_end: _partial — proved when every ListOffsets in flight at the
-   moment of the call asks for the same strategy ... *)
-Theorem c13_seek_to_precedence_partial : forall c tr1 x tr2 s0 s,
-  run c fresh tr1 = Some s0 -> (forall y, In y (lo s0) -> y = x) ->
-  run c s0 (SeekTo x :: tr2) = Some s -> forallb quiet_ev tr2 = true ->
-  forall p, pos s = Some p ->
-  exists l h ls, origin_ s = Some (OReset x l h ls) /\ p = answer (c_iso c) x l h ls.
-Proof. exact seek_to_precedence. Qed.
-Print Assumptions c13_seek_to_precedence_partial.
-
-(* ... and FALSE without that side condition for the code as it is: the offset found for the
-   strategy asked earlier is applied to the reset requested now (known finding, replayed on the
-   real code by harness/c13.py). *)
-Definition C13_seek_to_precedence_full : Prop :=
-  forall c tr1 x tr2 s,
+(* ... and so does seek_to_beginning() / seek_to_end(): whatever lookups were in flight when it was
+   called (also ListOffsets for the OTHER strategy — their answers are not applied), a position
+   established afterwards is the leader's answer for the strategy asked. *)
+Theorem c13_seek_to_precedence : forall c tr1 x tr2 s,
   run c fresh (tr1 ++ SeekTo x :: tr2) = Some s -> forallb quiet_ev tr2 = true ->
   forall p, pos s = Some p ->
   exists l h ls, origin_ s = Some (OReset x l h ls) /\ p = answer (c_iso c) x l h ls.
-
-Theorem c13_seek_to_precedence_refuted : ~ C13_seek_to_precedence_full.
-Proof.
-  intros H.
-  specialize (H (mkCfg PEarliest RU false None)
-                [Assigned; CommittedReq; LookupOk None; CommittedResp None; ListOffsetsSent Earliest]
-                Latest [ListOffsetsResp Earliest 2 12 12]).
-  simpl in H. specialize (H _ eq_refl eq_refl 2 eq_refl).
-  destruct H as (l & h & ls & H & _). discriminate.
-Qed.
-Print Assumptions c13_seek_to_precedence_refuted.
+Proof. exact seek_to_precedence. Qed.
+Print Assumptions c13_seek_to_precedence.
 
 (* c13_retry.  A failed committed lookup leaves every waiter waiting and the lookup can be (and,
    by the coordinator's refresh loop, is) sent again; a failed ListOffsets leaves the reset
@@ -194,7 +149,11 @@ Example c13_ex_none_and_seek :
 Proof. vm_compute. reflexivity. Qed.
 
 (* what the model forbids: starting somewhere else than the committed offset, resetting with the
-   wrong strategy, applying a reset after a seek *)
+   wrong strategy, applying a reset after a seek, the high watermark instead of the last stable
+   offset under read_committed — and the two defects this check found in the pinned tree (fixed
+   since, see known_findings.d/C13.json): a committed lookup answered "no offset" although the group
+   has one (OffsetFetch v2+ group-level error read as an empty answer), and the answer to a
+   ListOffsets for `earliest` applied to a pending seek_to_end() *)
 Example c13_ex_rejects :
   run (mkCfg PLatest RU true (Some 4)) fresh [Assigned; CommittedReq; LookupSent; LookupOk None] = None /\
   run (mkCfg PLatest RU true None) fresh
@@ -204,5 +163,20 @@ Example c13_ex_rejects :
        ListOffsetsResp Earliest 0 9 9] = None /\
   run (mkCfg PEarliest RC false None) fresh
       [Assigned; CommittedReq; LookupOk None; CommittedResp None; ListOffsetsSent Earliest;
-       ListOffsetsResp Earliest 2 9 6; Position 6] = None.
+       ListOffsetsResp Earliest 2 9 6; Position 6] = None /\
+  run (mkCfg PLatest RC false None) fresh
+      [Assigned; CommittedReq; LookupOk None; CommittedResp None; ListOffsetsSent Latest;
+       ListOffsetsResp Latest 2 9 6; Position 9] = None /\
+  run (mkCfg PEarliest RU false None) fresh
+      [Assigned; CommittedReq; LookupOk None; CommittedResp None; ListOffsetsSent Earliest; SeekTo Latest;
+       ListOffsetsResp Earliest 2 12 12] = None.
 Proof. vm_compute. repeat split. Qed.
+
+(* the repaired behaviour of the second one is accepted: the stale answer is ignored, the lookup
+   for the strategy asked follows *)
+Example c13_ex_seek_to_end_during_reset :
+  replay (mkCfg PEarliest RU false None)
+         [Assigned; CommittedReq; LookupOk None; CommittedResp None; ListOffsetsSent Earliest; SeekTo Latest;
+          ListOffsetsIgnored Earliest; ListOffsetsSent Latest; ListOffsetsResp Latest 2 12 12; Position 12]
+  = inl (Some 12, false, Some (12, 3), 3, []).
+Proof. vm_compute. reflexivity. Qed.
